@@ -67,6 +67,27 @@ func engineHistoryCase(r *rand.Rand) Case {
 	}
 	defer guardEnd()
 	builtinOff := r.Intn(12) == 0
+	// two histories out of three have a THEME: one function name; registrations and programs are
+	// drawn mostly from those that mention it, so that overload sets and re-registrations of one
+	// name meet the programs that call it
+	themes := []string{"sel", "tr", "+", "!", "string", "len", "idp", "get", "<>"}
+	theme := ""
+	if r.Intn(3) != 0 {
+		theme = themes[r.Intn(len(themes))]
+		c.Tags = append(c.Tags, "engine:theme:"+theme)
+	}
+	var themeHosts []hostDecl
+	var themeProgs []string
+	for _, h := range engineHostPool {
+		if h.Name == theme {
+			themeHosts = append(themeHosts, h)
+		}
+	}
+	for _, p := range enginePrograms {
+		if theme != "" && strings.Contains(p, theme) {
+			themeProgs = append(themeProgs, p)
+		}
+	}
 	for step := 0; step < nops; step++ {
 		callables = append(callables, nil)
 		x := r.Intn(100)
@@ -81,6 +102,9 @@ func engineHistoryCase(r *rand.Rand) Case {
 			human = append(human, "UseBuiltIn(false)")
 		case x < 28:
 			h := engineHostPool[r.Intn(len(engineHostPool))]
+			if len(themeHosts) > 0 && r.Intn(3) != 0 {
+				h = themeHosts[r.Intn(len(themeHosts))]
+			}
 			e.RegisterFun(h.build())
 			registered = append(registered, h)
 			regAt[h.Name] = step
@@ -112,7 +136,9 @@ func engineHistoryCase(r *rand.Rand) Case {
 			c.Tags = append(c.Tags, "engine:compiler:"+b)
 		case x < 68 || len(compiled) == 0:
 			src := enginePrograms[r.Intn(len(enginePrograms))]
-			if r.Intn(3) == 0 {
+			if len(themeProgs) > 0 && r.Intn(3) != 0 {
+				src = themeProgs[r.Intn(len(themeProgs))]
+			} else if r.Intn(3) == 0 {
 				g := &progGen{r: r, vars: engineVars, hosts: registered, stats: map[string]int{}, sugar: true}
 				src = g.gen(targetTypes[r.Intn(len(targetTypes))], 1+r.Intn(3))
 			}
